@@ -409,6 +409,30 @@ def check(ctx: Ctx, col: Collector, tier: str) -> None:
                                           f"attribute {aname} of type variable {tvname}: entries per path {sorted(counts)}",
                                           *([] if good else [f"a public attribute whose type is a type variable (`class Box(Generic[T]): value: T`, `self.first: T = value`) produces {sorted(counts)} entries: "
                                                              f"the member vanishes from the stub (every attribute of kind TypeVarType is skipped, not only type-variable definitions)"]))
+    # the visitor side of the same exemption: an assignment target mypy did not bind to a variable *here* (`self.count = 1` in
+    # __init__ when a method placed earlier also assigns self.count: MemberExpr.node stays None, semanal binds only the first
+    # definition) is still an attribute of the class; only a target bound to a type-variable expression is a type-variable definition
+    cafi = repo.function(VISITOR, f"{VCLS}._create_attribute")
+    col.touched(cafi)
+    member = Obj("MemberExpr", (("name", Const("count")), ("fullname", Const("")), ("node", Const(None)), ("expr", Sym("self_expr", "NameExpr"))))
+    couts = ctx.interp(cafi).run_function(cafi, {"self": Sym("self"), "attribute": member, "unanalyzed_type": Const(None), "is_static": Const(False)},
+                                          visitor_state((parent_obj("Module"), parent_obj("Class"), parent_obj("Constructor"))))
+    kinds = set()
+    for o in couts:
+        if o.kind != "return" or not isinstance(o.value, Obj):
+            kinds.add(o.kind if o.kind != "return" else f"returns {o.value!r}")
+            continue
+        t = o.value.get("type")
+        if isinstance(t, Obj) and t.cls.endswith("TypeVarType"):
+            kinds.add(f"type TypeVarType({t.get('name')!r})")
+        else:
+            kinds.add("attribute")
+    key = f"{VISITOR}::{VCLS}._create_attribute::target-bound-elsewhere"
+    good = kinds == {"attribute"}
+    (col.ok if good else col.bad)("C03.COVERAGE", key, repo.loc(VISITOR, cafi.node), "a member target without a variable of its own (node None) is an attribute without type-variable type" if good else f"outcomes {sorted(kinds)}",
+                                  *([] if good else [f"a constructor assignment whose target mypy bound elsewhere (`self.count = 1` in __init__ while a method placed before __init__ also assigns "
+                                                     f"self.count: MemberExpr.node is None) is recorded as {sorted(kinds)}: every target that is not a Var is taken for a type-variable definition named like the "
+                                                     f"attribute, which the generator skips - the public attribute vanishes from the stub"]))
     # enum members
     efi = repo.function(GEN, f"{GENCLS}._create_enum_string")
     col.touched(efi)
